@@ -624,7 +624,7 @@ class Prog:
 
 C15.rule = ("histories drawn from VERIF_SEED over print (30% with formatting options: end, soft_wrap, justify, no_wrap/overflow, crop, width, markup)/markup/log/rule/line/out/bell/clear/show_cursor/"
             "capture (also nested in captures and buffered blocks, also left by exception)/export_text/export_html, with injected faults: prints whose renderable raises (caught by the program), "
-            "output operations during which the file refuses the write or fails the flush after it "
+            "output operations during which the file refuses the write, refuses the second write of the operation, or fails the flush after the write "
             "x colour system {None, standard, 256, truecolor} x terminal or not x width; 55% single-thread (exports at arbitrary points), "
             "45% 2-3 threads under a seeded schedule (exports at quiescence); non-trivial = at least one operation; distinct = distinct (case, switch-signature)")
 C15.components_real = ["rich.console (record buffer, capture, export_text, export_html, control)", "rich.segment (simplify, filter_control)", "rich.style (render, get_html_style)", "renderers"]
